@@ -27,6 +27,8 @@ def configs(tier):
     cfgs.append(V(kind="filtered", depth=2, W=2, accepted=stages.FILTER_5LEAVES))
     cfgs.append(V(kind="generic", depth=2, W=2, apex=(1, 1, 0)))
     cfgs.append(T(depth=1, W=2))
+    # timeouts that also fire on contention for the queue's reader lock, with data in the pipe
+    cfgs.append(V(kind="generic", depth=1, W=2, contended_timeouts=True))
     cfgs.append(stages.MultiTan(nimg=3, W=2))
     cfgs.append(stages.MultiWcs(nimg=2, W=2))
     if tier == "thorough":
@@ -34,6 +36,9 @@ def configs(tier):
         cfgs.append(V(kind="generic", depth=1, W=1))
         cfgs.append(V(kind="generic", depth=2, W=2))
         cfgs.append(V(kind="generic", depth=1, W=2, pipe_capacity=1))
+        # timeouts that fire on contention for the queue's reader lock although data is in the pipe
+        cfgs.append(V(kind="generic", depth=1, W=3, contended_timeouts=True))
+        cfgs.append(T(depth=1, W=2, contended_timeouts=True))
         cfgs.append(V(kind="filtered", depth=2, W=3, accepted=stages.FILTER_5LEAVES))
         cfgs.append(T(depth=1, W=3))
         cfgs.append(T(depth=2, W=2))
